@@ -9,7 +9,7 @@ namespace Jap.ExcFlow
 
 theorem Exc.ofNat_ctorIdx' (e : Exc) : Exc.ofNat e.ctorIdx = e := by cases e <;> rfl
 theorem Tag.ofNat_ctorIdx' (t : Tag) : Tag.ofNat t.ctorIdx = t := by cases t <;> rfl
-theorem Tag.ctorIdx_lt (t : Tag) : t.ctorIdx < 4 := by cases t <;> decide
+theorem Tag.ctorIdx_lt (t : Tag) : t.ctorIdx < 8 := by cases t <;> decide
 
 /-- the numbering of signals loses nothing -/
 theorem Sig.ofCode_code (s : Sig) : Sig.ofCode s.code = s := by
@@ -17,17 +17,17 @@ theorem Sig.ofCode_code (s : Sig) : Sig.ofCode s.code = s := by
   | cont => rfl
   | exc c t =>
     have ht := Tag.ctorIdx_lt t
-    have h0 : ¬ (1 + 2 * (c.ctorIdx * 4 + t.ctorIdx) = 0) := by omega
-    have h1 : (1 + 2 * (c.ctorIdx * 4 + t.ctorIdx)) % 2 = 1 := by omega
-    have h2 : (1 + 2 * (c.ctorIdx * 4 + t.ctorIdx) - 1) / 2 / 4 = c.ctorIdx := by omega
-    have h3 : (1 + 2 * (c.ctorIdx * 4 + t.ctorIdx) - 1) / 2 % 4 = t.ctorIdx := by omega
+    have h0 : ¬ (1 + 2 * (c.ctorIdx * 8 + t.ctorIdx) = 0) := by omega
+    have h1 : (1 + 2 * (c.ctorIdx * 8 + t.ctorIdx)) % 2 = 1 := by omega
+    have h2 : (1 + 2 * (c.ctorIdx * 8 + t.ctorIdx) - 1) / 2 / 8 = c.ctorIdx := by omega
+    have h3 : (1 + 2 * (c.ctorIdx * 8 + t.ctorIdx) - 1) / 2 % 8 = t.ctorIdx := by omega
     simp only [Sig.code, Sig.ofCode, h0, h1, h2, h3, if_false, if_true, Exc.ofNat_ctorIdx', Tag.ofNat_ctorIdx']
   | exit n t =>
     have ht := Tag.ctorIdx_lt t
-    have h0 : ¬ (2 + 2 * (n * 4 + t.ctorIdx) = 0) := by omega
-    have h1 : ¬ ((2 + 2 * (n * 4 + t.ctorIdx)) % 2 = 1) := by omega
-    have h2 : (2 + 2 * (n * 4 + t.ctorIdx) - 2) / 2 / 4 = n := by omega
-    have h3 : (2 + 2 * (n * 4 + t.ctorIdx) - 2) / 2 % 4 = t.ctorIdx := by omega
+    have h0 : ¬ (2 + 2 * (n * 8 + t.ctorIdx) = 0) := by omega
+    have h1 : ¬ ((2 + 2 * (n * 8 + t.ctorIdx)) % 2 = 1) := by omega
+    have h2 : (2 + 2 * (n * 8 + t.ctorIdx) - 2) / 2 / 8 = n := by omega
+    have h3 : (2 + 2 * (n * 8 + t.ctorIdx) - 2) / 2 % 8 = t.ctorIdx := by omega
     simp only [Sig.code, Sig.ofCode, h0, h1, h2, h3, if_false, Tag.ofNat_ctorIdx']
 
 /-- `s` is in flight inside state `st` according to table `F` -/
@@ -103,9 +103,7 @@ theorem route_ok_of_closed {T : Tables} {mode : Mode} {top : Bool} {F : Flight}
   rw [Sig.ofCode_code] at h3
   exact h3
 
-/-- the pipeline: if every event is a designed failure on a call path, the run ends acceptably -/
-def okOutcomeOrHole (top : Bool) (o : Outcome) : Prop := conforming top o = true
-
+/-- the pipeline: if every event is a designed failure on a call path (not through a tagged origin), the run ends acceptably -/
 theorem runEvents_ok {T : Tables} {mode : Mode} {top : Bool} {F : Flight}
     (hc : Closed T mode top F = true) (hr : RootsOk T mode top F = true)
     (m : Method) (root : Region) (hroot : root ∈ roots m) :
